@@ -22,6 +22,33 @@ def rollPoolW (hs : List (Hist Int)) : W (List Int) := do
   let vs ← rollDiceW hs
   pure (vs.mergeSort fun a b => decide (a ≤ b))
 
+/-! ### the generator-threading view: an explicit stream of generator answers -/
+
+/-- the face `random.choices(outcomes, counts)` returns for generator answer `u` -/
+def faceAt (h : Hist Int) (u : Nat) : Int :=
+  ((h.map Prod.fst)[pickIdx (h.map Prod.snd) u]?).getD 0
+
+/-- `H.roll()` against a stream of generator answers: a zero-total histogram returns `0` without
+asking; otherwise exactly one answer is consumed -/
+def rollHistS (h : Hist Int) (us : List Nat) : Int × List Nat :=
+  if total h = 0 then (0, us) else
+    match us with
+    | [] => (0, [])
+    | u :: us => (faceAt h u, us)
+
+/-- one `H.roll()` per die, in pool order, threading the stream -/
+def rollDiceS : List (Hist Int) → List Nat → List Int × List Nat
+  | [], us => ([], us)
+  | h :: hs, us =>
+    let r1 := rollHistS h us
+    let r2 := rollDiceS hs r1.2
+    (r1.1 :: r2.1, r2.2)
+
+/-- `P.roll()` against a stream -/
+def rollPoolS (hs : List (Hist Int)) (us : List Nat) : List Int × List Nat :=
+  let r := rollDiceS hs us
+  (r.1.mergeSort fun a b => decide (a ≤ b), r.2)
+
 /-- the roller model's pool leaf draws its dice the same way -/
 theorem rollDiceW_eq_foldr (hs : List (Hist Int)) :
     rollDiceW hs = hs.foldr (fun h acc => do let v ← rollHist h; let r ← acc; pure (v :: r)) (pure []) := by
